@@ -395,6 +395,10 @@ def _resolve_zerocopy(m):
     return {"type": "http.response.body", "body": data, "more_body": bool(m.get("more_body", False)), "zerocopy": True}
 
 
+class Runaway(BaseException):
+    """The application under test emits events without end: cut the execution short (reported as the call's outcome)."""
+
+
 def run_asgi(app, scope, messages, monitor=True, send_fail_at=None, horizon=200000, disconnect_type="http.disconnect", receive_raises=False, send_yields=False, executor_order="inline"):
     """Run an ASGI http app under the default schedule of the virtual loop.
     receive() hands out `messages` in order; after they are exhausted it stays pending until nothing else can run,
@@ -431,6 +435,8 @@ def run_asgi(app, scope, messages, monitor=True, send_fail_at=None, horizon=2000
             if send_yields:
                 import asyncio
                 await asyncio.sleep(0)  # a server that really suspends while it writes
+            if len(res.raw_events) >= 20000:
+                raise Runaway("more than 20000 events sent for one response")
             res.raw_events.append(message)
             if message.get("type") == "http.response.zerocopysend":
                 res.events.append(_resolve_zerocopy(message))
